@@ -120,6 +120,7 @@ type HarnessCfg struct {
 	MaxWallS     float64
 	PreciseFmt   bool   // format symbolic integers exactly (forks on digit counts)
 	IfConvFuncs map[string]bool // functions whose scalar stores / integer joins are if-converted
+	FlipOrder   bool            // depth-first search takes the false side of program branches first
 	StopAtCover  string // calibration: stop exploring once this cover label was reached
 }
 
